@@ -521,6 +521,35 @@ func selCaseGuard(a *FnA, target ssa.Instruction, sel *ssa.Select, idx int) bool
 	return len(edges) > 0 && a.EveryPathTakes(target, edges)
 }
 
+// selDefaultGuard: target is reached only through the default arm of the non-blocking select.
+func selDefaultGuard(a *FnA, target ssa.Instruction, sel *ssa.Select) bool {
+	if sel.Blocking {
+		return false
+	}
+	isTest := func(b *ssa.BasicBlock) bool {
+		if len(b.Instrs) == 0 {
+			return false
+		}
+		ifi, ok := b.Instrs[len(b.Instrs)-1].(*ssa.If)
+		if !ok {
+			return false
+		}
+		bo, ok := ifi.Cond.(*ssa.BinOp)
+		if !ok {
+			return false
+		}
+		ex, ok := bo.X.(*ssa.Extract)
+		return ok && ex.Index == 0 && ex.Tuple == ssa.Value(sel)
+	}
+	var edges []Edge
+	for _, b := range a.fn.Blocks {
+		if isTest(b) && !isTest(b.Succs[1]) {
+			edges = append(edges, Edge{b, 1})
+		}
+	}
+	return len(edges) > 0 && a.EveryPathTakes(target, edges)
+}
+
 // checkHandleViewUpdateGuards (C08.6 / C11.6): the step dispatch of the state
 // machine's view update handler is dominated by height equality, round
 // equality and a strictly greater version.
